@@ -324,6 +324,12 @@ def classify_vfs_diff(tree, p, variant):
     import re
     if any(re.search(r"\.zip$", c) for c in p.split("/")):
         return "zip-vfs-differs-archive-like-name"
+    by_path = {e["path"]: e for e in tree}
+    parts = p.split("/") if p else []
+    for i in range(1, len(parts) + 1):
+        e = by_path.get("/".join(parts[:i]))
+        if e and e["kind"] == "link":
+            return "zip-vfs-link-differs"
     return "zip-vfs-differs"
 
 
